@@ -1197,32 +1197,50 @@ func checkReaderDiscipline(c *Ctx, p *packages.Package) {
 	})
 	if nextR != nil {
 		reads, checked := 0, 0
-		for i, st := range nextR.Body.List {
-			as, ok := st.(*ast.AssignStmt)
-			if !ok || len(as.Rhs) != 1 || len(as.Lhs) != 2 {
-				continue
+		// every statement list of the method (the reads may sit in a loop over the continuation bytes)
+		var lists [][]ast.Stmt
+		ast.Inspect(nextR.Body, func(n ast.Node) bool {
+			switch x := n.(type) {
+			case *ast.BlockStmt:
+				lists = append(lists, x.List)
+			case *ast.CaseClause:
+				lists = append(lists, x.Body)
 			}
-			call, ok := ast.Unparen(as.Rhs[0]).(*ast.CallExpr)
-			if !ok {
-				continue
-			}
-			if sel, ok := call.Fun.(*ast.SelectorExpr); !ok || sel.Sel.Name != nextB.Name.Name {
-				continue
-			}
-			reads++
-			if i+1 < len(nextR.Body.List) {
-				if ifs, ok := nextR.Body.List[i+1].(*ast.IfStmt); ok {
-					if b, ok := ast.Unparen(ifs.Cond).(*ast.BinaryExpr); ok && b.Op == token.NEQ && isNilExpr(info, b.Y) {
-						for _, s2 := range ifs.Body.List {
-							if r, ok := s2.(*ast.ReturnStmt); ok && len(r.Results) == 2 && types.ExprString(r.Results[1]) == types.ExprString(b.X) {
-								checked++
+			return true
+		})
+		for _, list := range lists {
+			for i, st := range list {
+				as, ok := st.(*ast.AssignStmt)
+				if !ok || len(as.Rhs) != 1 || len(as.Lhs) != 2 {
+					continue
+				}
+				call, ok := ast.Unparen(as.Rhs[0]).(*ast.CallExpr)
+				if !ok {
+					continue
+				}
+				if sel, ok := call.Fun.(*ast.SelectorExpr); !ok || sel.Sel.Name != nextB.Name.Name {
+					continue
+				}
+				reads++
+				if i+1 < len(list) {
+					if ifs, ok := list[i+1].(*ast.IfStmt); ok {
+						if b, ok := ast.Unparen(ifs.Cond).(*ast.BinaryExpr); ok && b.Op == token.NEQ && isNilExpr(info, b.Y) {
+							for _, s2 := range ifs.Body.List {
+								if r, ok := s2.(*ast.ReturnStmt); ok && len(r.Results) == 2 && types.ExprString(r.Results[1]) == types.ExprString(b.X) {
+									checked++
+								}
 							}
 						}
 					}
 				}
 			}
 		}
-		c.Check("R19.4", "reader: every byte read by Next has its error returned immediately", token.NoPos, reads >= 4 && reads == checked, fmt.Sprintf("%d byte reads, %d followed by an immediate error return", reads, checked))
+		switch {
+		case reads == 0:
+			c.Undecided("R19.4", "reader: every byte read by Next has its error returned immediately", token.NoPos, "no `b, err := next()` statement was found in Next")
+		default:
+			c.Check("R19.4", "reader: every byte read by Next has its error returned immediately", token.NoPos, reads == checked, fmt.Sprintf("%d byte reads, %d followed by an immediate error return", reads, checked))
+		}
 	} else {
 		c.Lost("R19.4", "the rune-level Next method")
 	}
